@@ -50,11 +50,11 @@ mod verif_settings {
         let r: ReconstructionSettings = (&c).into();
         let unit = if use_tabs { b'\t' } else { b' ' };
         let iw: usize = if use_tabs { 1 } else { tw as usize };
-        let prod = ci as usize * if use_tabs { 1 } else { tw as usize };
-        let cw: usize = if prod > 255 { 255 } else { prod };
+        // from the property (C08: every indentation is a whole number of units; C10): no cap
+        let cw: usize = ci as usize * if use_tabs { 1 } else { tw as usize };
         kani::cover!(le == 0, "crlf");
         assert!(r.get_indentation_str().len() == iw, "OB settings/indent_width: one indentation = one tab, or tab_width spaces");
-        assert!(r.get_continuation_str().len() == cw, "OB settings/continuation_width: one continuation = continuation_indents indentation units (saturating at 255 columns)");
+        assert!(r.get_continuation_str().len() == cw, "OB settings/continuation_width: one continuation = continuation_indents indentation units, for every setting");
         let ib = r.get_indentation_str().as_bytes();
         let mut i = 0;
         while i < ib.len() {
